@@ -531,7 +531,41 @@ def sink_contained(ctx, res):
                    f"the guarding try: a raising __str__/__repr__ escapes "
                    f"from the exception sink, the remaining handlers are "
                    f"skipped and the assignment raises")
+    # what the handler raised is a user object too: outside the try nothing
+    # may call a method on it or on its arguments (RuntimeError(42).args[0]
+    # has no .startswith)
+    exc_names = set()
+    for a in ast.walk(fn):
+        if isinstance(a, ast.Assign) and "exc_info()" in norm(a.value):
+            for t in a.targets:
+                exc_names |= {x.id for x in ast.walk(t)
+                              if isinstance(x, ast.Name)}
+    res.instance("_log_exception:exception-payload", mod.loc(fn),
+                 names=sorted(exc_names))
+    for x in ast.walk(fn):
+        if not (isinstance(x, ast.Call) and isinstance(x.func, ast.Attribute)):
+            continue
+        base_names = {n2.id for n2 in ast.walk(x.func.value)
+                      if isinstance(n2, ast.Name)}
+        if not (base_names & exc_names):
+            continue
+        # excp.args[...] .method(...)  /  excp.method(...)
+        in_test = False
+        p_ = parents.get(id(x))
+        child = x
+        while p_ is not None:
+            if isinstance(p_, ast.If) and child is p_.test:
+                in_test = True
+            child = p_
+            p_ = parents.get(id(p_))
+        res.oblige(contained(x) and not in_test,
+                   "_log_exception:uncontained-payload-call", mod.loc(x),
+                   f"`{norm(x)[:70]}` calls a method on what the failing "
+                   f"handler raised, outside the guarding try: an exception "
+                   f"whose argument is not a string (RuntimeError(42)) makes "
+                   f"the exception sink itself raise - the remaining handlers "
+                   f"are skipped and the assignment raises")
     if n == 0:
         raise AnalysisError("_log_exception: no formatting of user objects "
                             "found")
-    res.floor(1)
+    res.floor(2)
